@@ -25,8 +25,15 @@ pub struct RunOutcome {
 /// performs one call; this is the only place engine B calls into the library
 pub fn exec_call(call: &Call, text: &str, shared_source: Option<&Source>, shared_styler: Option<&Typstyle>) -> Res {
     let config = call.cfg.to_config();
+    // a fresh formatter, or a clone of the run's shared one for this configuration
+    let make = |config: typstyle_core::Config| -> Typstyle {
+        match (call.via_clone, shared_styler) {
+            (true, Some(s)) => s.clone(),
+            _ => Typstyle::new(config),
+        }
+    };
     match &call.op {
-        Op::Content => match Typstyle::new(config).format_content(text) {
+        Op::Content => match make(config).format_content(text) {
             Ok(s) => Res::Ok(s),
             Err(_) => Res::Err,
         },
@@ -40,7 +47,7 @@ pub fn exec_call(call: &Call, text: &str, shared_source: Option<&Source>, shared
                     &own
                 }
             };
-            match Typstyle::new(config).format_source(src) {
+            match make(config).format_source(src) {
                 Ok(s) => Res::Ok(s),
                 Err(_) => Res::Err,
             }
@@ -55,7 +62,7 @@ pub fn exec_call(call: &Call, text: &str, shared_source: Option<&Source>, shared
                 }
             };
             let mut digest = 0u64;
-            match Typstyle::new(config).format_source_inspect(src, |doc| {
+            match make(config).format_source_inspect(src, |doc| {
                 digest = crate::rng::fnv(doc.pretty(120).to_string().as_bytes());
             }) {
                 Ok(s) => Res::OkInspect(s, digest),
@@ -143,7 +150,7 @@ pub fn run_scenario(sc: &Scenario) -> RunOutcome {
     let mut cfgs: Vec<crate::oracle::Cfg> = Vec::new();
     for t in &sc.threads {
         for c in t {
-            if matches!(c.op, Op::Range { .. }) && !cfgs.contains(&c.cfg) {
+            if (matches!(c.op, Op::Range { .. }) || c.via_clone) && !cfgs.contains(&c.cfg) {
                 cfgs.push(c.cfg);
             }
         }
